@@ -61,7 +61,15 @@ func newSchedGen(r *RNG, tier string, profile string) *schedGen {
 	case "c13":
 		// freelist hand-over: writers that own disjoint keys (overlapping mutators of ONE key are known finding D17) overwrite
 		// and remove, a Flush thread and a primary GC thread run alongside; accounting is checked after quiescence
-		g.ops = append(g.ops, mkOp("sopen", "bits", strconv.Itoa(bits), "ifs", strconv.Itoa(ifs), "pfs", strconv.Itoa([]int{33, 64, 200}[r.Intn(3)]), "imm", "0"))
+		// relocation-window variant: the first key of the first writer keeps its record while its neighbours are superseded (its file
+		// becomes low-use), the collector is stopped between the copy of that record and the re-pointing, and the owner overwrites or
+		// removes the key inside the window (the accounting of the refused path)
+		relocWin := r.Bool(30)
+		cpfs := []int{33, 64, 200}[r.Intn(3)]
+		if relocWin {
+			cpfs = []int{64, 200}[r.Intn(2)]
+		}
+		g.ops = append(g.ops, mkOp("sopen", "bits", strconv.Itoa(bits), "ifs", strconv.Itoa(ifs), "pfs", strconv.Itoa(cpfs), "imm", "0"))
 		nt := 2 + r.Intn(2)
 		all := genDigests(r, bits, 3*nt)
 		var allKeys []string
@@ -85,12 +93,31 @@ func newSchedGen(r *RNG, tier string, profile string) *schedGen {
 					ops = append(ops, "rm:"+k)
 				}
 			}
+			if relocWin && t == 0 {
+				first := "put:" + mine[0] + ":" + val()
+				if r.Bool(30) {
+					first = "rm:" + mine[0]
+				}
+				ops = append([]string{first}, ops...)
+			}
 			g.ops = append(g.ops, mkOp("sthread", "name", fmt.Sprintf("t%d", t), "ops", strings.Join(ops, ",")))
 		}
 		g.ops = append(g.ops, mkOp("sprep", "op", "flush"))
-		g.ops = append(g.ops, mkOp("sthread", "name", "f", "ops", "flush,flush"))
-		if r.Bool(60) {
-			g.ops = append(g.ops, mkOp("sthread", "name", "g", "ops", "pgc:100"))
+		if relocWin && len(allKeys) > 1 {
+			for i := 0; i < 3+r.Intn(4); i++ {
+				g.ops = append(g.ops, mkOp("sprep", "op", "put:"+allKeys[1+r.Intn(len(allKeys)-1)]+":"+val()))
+				if r.Bool(70) {
+					g.ops = append(g.ops, mkOp("sprep", "op", "flush"))
+				}
+			}
+			g.ops = append(g.ops, mkOp("sprep", "op", "flush"))
+			g.ops = append(g.ops, mkOp("sthread", "name", "g", "ops", "pgc:"+strconv.Itoa([]int{50, 85}[r.Intn(2)])))
+			g.window = "g:primary.gc.reloc.put:1"
+		} else {
+			g.ops = append(g.ops, mkOp("sthread", "name", "f", "ops", "flush,flush"))
+			if r.Bool(60) {
+				g.ops = append(g.ops, mkOp("sthread", "name", "g", "ops", "pgc:100"))
+			}
 		}
 		keys = allKeys
 	case "c12":
